@@ -1,4 +1,4 @@
-\* MODULE MCplain2q
+\* MODULE MCplain2
 SPECIFICATION Spec
 CONSTANTS
   Procs <- MCProcs
